@@ -13,7 +13,8 @@ element-wise family `f` and in the conditioner `cond` (an arbitrary function).
 model (`condIn` is the recorded field) — what can falsify it is the correspondence, which compares the recorded conditioner input
 of the real layer bit for bit; the executed statement is `exec_conditioner_input`.  "Bit-for-bit at `Float`" of the executed
 pass-through needs `MaskDisjoint`, proved at the real instance.  The consequences named in the property text (monotone in each
-transformed feature, triangular Jacobian) are in C09 / C01, not here.
+transformed feature, triangular Jacobian) and a pass-through statement for every `XOps α` without `MaskDisjoint` are in
+`Properties/C07C.lean`, about the executed `couplingApply`.
 -/
 open NF
 
